@@ -72,6 +72,14 @@ fn blank(n: u64) -> Checkpoint {
     Checkpoint { id: 0, timestamp_ms: 0, events_processed: n, window_states: Default::default(), pattern_states: Default::default(), metadata: Default::default(), context_states: Default::default() }
 }
 
+/// a checkpoint whose serialised form is several kB long: the attempt that crashes is bigger than every later checkpoint, so whatever
+/// it leaves behind (a temp file) is longer than what is written over it
+fn big(n: u64) -> Checkpoint {
+    let mut c = blank(n);
+    c.metadata.insert("pad".into(), "x".repeat(6000));
+    c
+}
+
 fn run_case(c: &J) -> Vec<J> {
     let keep = c["keep"].as_u64().unwrap() as usize;
     let n = c["n"].as_u64().unwrap();
@@ -94,7 +102,7 @@ fn run_case(c: &J) -> Vec<J> {
             if r.is_ok() { out.push(json!({"ev": "ack", "id": next, "files": listing(dir.path())})); }
         } else {
             *store.plan.lock().unwrap() = ph.to_string();
-            let r = mgr.checkpoint(blank(n));
+            let r = mgr.checkpoint(big(n));
             out.extend(store.log.lock().unwrap().drain(..));
             if r.is_ok() { out.push(json!({"ev": "ack", "id": next, "files": listing(dir.path())})); }
         }
@@ -122,7 +130,19 @@ fn run_case(c: &J) -> Vec<J> {
             let before = listing(dir.path());
             if m2.checkpoint(blank(99)).is_ok() {
                 let after = listing(dir.path());
-                if let Some(id) = after.iter().find(|i| !before.contains(i)).or(after.last()) { out.push(json!({"ev": "newid", "id": id})); }
+                if let Some(id) = after.iter().find(|i| !before.contains(i)).or(after.last()) {
+                    out.push(json!({"ev": "newid", "id": id}));
+                    // that checkpoint was written completely and acknowledged: a second restart must recover exactly it
+                    out.push(json!({"ev": "stored", "id": id}));
+                    out.push(json!({"ev": "ack", "id": id, "files": after}));
+                    drop(m2);
+                    out.push(json!({"ev": "crash", "files": listing(dir.path())}));
+                    let store3: Arc<dyn StateStore> = Arc::new(FileStore::open(dir.path()).unwrap());
+                    match CheckpointManager::new(store3.clone(), cfg(keep)).and_then(|m3| m3.recover()) {
+                        Ok(cp) => out.push(json!({"ev": "restart", "ok": true, "recovered": cp.map(|c| c.id).unwrap_or(0), "files": listing(dir.path())})),
+                        Err(_) => out.push(json!({"ev": "restart", "ok": false, "recovered": 0, "files": listing(dir.path())})),
+                    }
+                }
             }
         }
     }
